@@ -18,7 +18,7 @@ RULE = ('one run = an LE or SE model (samples of both games; API-built models wi
         'non-trivial = a conversion ran; distinct = distinct (initial state, option trace).')
 ASSUMPTIONS = ['tolerances are those of the code\'s own packing', 'normals and tangents are not compared (model-space shaders drop them by design; tangents are recomputed)',
                'a vertex whose 4th and 5th influence are equal may keep either', 'shapes with empty names are not generated as siblings (RenameDuplicateShapes skips them by design)']
-EXPECTED_PROBES = ['converted_to_SE', 'converted_to_LE', 'duplicate_names_renamed', 'partitions_triangulated', 'model_space_normals_removed', 'weights_compared', 'compared_with_original']
+EXPECTED_PROBES = ['converted_to_SE', 'converted_to_LE', 'duplicate_names_renamed', 'partitions_triangulated', 'model_space_normals_removed', 'weights_compared', 'compared_with_original', 'se_model_with_weights_only_per_vertex', 'built_sparse_weight_slots']
 
 
 def gen_plan(seed, i, tier):
@@ -40,6 +40,12 @@ def gen_plan(seed, i, tier):
                 s['nv'], s['nt'] = 30, 40
             if s.get('bones') and ver == 'SK':
                 s['wpv'] = rng.range(1, 6)
+            if s.get('bones') and ver == 'SSE':
+                if rng.chance(0.35):
+                    s['no_skindata_weights'] = True
+                if rng.chance(0.4):
+                    s['sparse_slots'] = True
+                    s['wpv'] = rng.range(2, 4)
             if rng.chance(0.2):
                 s['msn'] = True
             if rng.chance(0.35):
